@@ -283,7 +283,7 @@ class Checker:
 # ====================================================================== (a) generated histories
 OPS = [(9, "edit"), (6, "commit"), (2, "commit_partial"), (2, "amend"), (2, "branch"), (2, "switch"),
        (3, "rebase"), (2, "rebase_i"), (2, "cherry_pick"), (1, "reset"), (1, "stash"), (1, "stash_pop"),
-       (1, "merge_squash")]
+       (1, "merge_squash"), (1, "ci_squash")]
 REPLAY_OPS = {"rebase", "rebase_i", "cherry_pick"}
 REPLAY_KINDS = {"file_absent", "line_oob"}
 SLOW_MARKERS = ("Processing commit ", "Processing cherry-picked commit ")
@@ -293,8 +293,37 @@ NASTY = ["my file.rs", 'a"b', 'say "hi".txt', "héllo.rs", "日本語.txt", "dir
 NASTY_KNOWN = ["---", '"', '"x"', "a\nb", "nb\u00a0", '"base_commit_sha":"x']
 
 
+def op_ci_squash(w):
+    """what a CI job does after a server-side squash merge: the squash commit is made by plain git, then
+    `git-ai squash-authorship <base> <new> <old>` rewrites the authorship of the source branch onto it"""
+    others = [b for b in w.branches if b != w.cur]
+    if not others:
+        return None
+    if not w._clean():
+        w.op_commit()
+    src = w.r.pick(others)
+    rc, cnt, _ = w.sim.realgit("rev-list", "--count", f"{w.cur}..{src}")
+    if int(cnt.strip() or 0) == 0:
+        return None
+    old = w.sim.realgit("rev-parse", src)[1].strip()
+    rc, _, _ = w.realgit("merge", "--squash", src)
+    if rc != 0:
+        w._resolve_conflict()
+    rc2, _, _ = w.realgit("commit", "-q", "-m", f"ci squash {src}")
+    if rc2 != 0:
+        w.realgit("reset", "-q", "--hard", "HEAD")
+        w.trace.append(("ci_squash", src, "empty"))
+        return None
+    new = w.sim.head()
+    rc3, _, _ = w.sim.gitai("squash-authorship", w.cur, new, old)
+    w.trace.append(("ci_squash", src, rc3))
+    return rc3
+
+
 def run_op(w, op):
-    if op == "edit":
+    if op == "ci_squash":
+        op_ci_squash(w)
+    elif op == "edit":
         w.op_edit()
     elif op == "commit":
         w.op_commit()
@@ -337,11 +366,40 @@ def classify(f, op, slow, ai_paths):
 
 
 def scenario(args):
+    """one generated history; the notes ref is checked after EVERY operation; stops at the first failing step.
+    Two shapes: `random` (any operation at any time) and `structured` (work on main, a feature branch with AI
+    commits, upstream work that may touch the same files above the feature's lines, then a rewriting operation and a
+    random tail) — the second makes rebases and cherry-picks that really replay content."""
     base, seed, idx, opts = args
     r = C.Rng(seed).fork(f"c05-{'n' if opts.get('nasty') else 'h'}-{idx}")
     sim = Sim5(base, f"{'n' if opts.get('nasty') else 'w'}{idx}")
     w = World(sim, r)
-    out = {"idx": idx, "failures": [], "steps": 0, "notes_checked": 0, "nasty": bool(opts.get("nasty"))}
+    out = {"idx": idx, "failures": [], "steps": 0, "notes_checked": 0, "nasty": bool(opts.get("nasty")),
+           "slow_steps": 0, "fast_steps": 0}
+
+    class Stop(Exception):
+        pass
+
+    def do(op, fn=None):
+        sim.step_err = []
+        if fn is not None:
+            fn()
+        else:
+            run_op(w, op)
+        out["steps"] += 1
+        err = "\n".join(sim.step_err)
+        slow = any(m in err for m in SLOW_MARKERS)
+        out["slow_steps"] += 1 if slow else 0
+        out["fast_steps"] += 1 if "Fast-path remapped" in err else 0
+        fails = ck.step()
+        if fails:
+            ai_paths = sorted({t[2] for t in w.trace if t[0] == "edit" and t[1] != "H"})
+            for f in fails:
+                f.update({"k": out["steps"], "op": op, "slow_path": slow, "known": classify(f, op, slow, ai_paths)})
+            out["failures"] = fails
+            out["log"] = sim.log
+            raise Stop()
+
     try:
         files = {}
         if opts.get("nasty"):
@@ -354,21 +412,40 @@ def scenario(args):
         out["names"] = names
         ck = Checker(sim)
         ck.step()
-        for k in range(r.range(4, opts.get("max_ops", 10))):
-            op = r.weighted(OPS)
-            sim.step_err = []
-            run_op(w, op)
-            out["steps"] += 1
-            fails = ck.step()
-            if fails:
-                err = "\n".join(sim.step_err)
-                slow = any(m in err for m in SLOW_MARKERS)
-                ai_paths = sorted({t[2] for t in w.trace if t[0] == "edit" and t[1] != "H"})
-                for f in fails:
-                    f.update({"k": k, "op": op, "slow_path": slow, "known": classify(f, op, slow, ai_paths)})
-                out["failures"] = fails
-                out["log"] = sim.log
-                break
+        shape = r.weighted([(6, "structured"), (4, "random")])
+        out["shape"] = shape
+        try:
+            if shape == "random":
+                for _ in range(r.range(4, opts.get("max_ops", 10))):
+                    do(r.weighted(OPS))
+            else:
+                ai = lambda: r.pick(SESSIONS)
+                for _ in range(r.range(0, 1)):
+                    do("edit", lambda: w.op_edit(actor=r.pick(["H", "s1", "s2"])))
+                    do("commit")
+                do("branch")
+                touched = []
+                for _ in range(r.range(1, 3)):
+                    for _ in range(r.range(1, 2)):
+                        newf = r.chance(1, 5)
+                        do("edit", lambda: touched.append(w.op_edit(actor=ai() if r.chance(4, 5) else "H",
+                                                                    path=(f"new{w.counter}.txt" if newf else None))))
+                    do(r.weighted([(6, "commit"), (1, "commit_partial"), (1, "amend")]))
+                do("commit")
+                do("switch")
+                for _ in range(r.range(0, 2)):
+                    same = touched and r.chance(2, 3)
+                    do("edit", lambda: w.op_edit(actor=r.pick(["H", "H", "s2"]), path=(r.pick(touched) if same else None),
+                                                 region=r.pick(["top", "top", None, "bottom"]), kinds=["ins", "rep", "del"]))
+                    do("commit")
+                final = r.weighted([(5, "rebase"), (4, "rebase_i"), (3, "cherry_pick"), (2, "merge_squash"), (2, "ci_squash"), (1, "amend")])
+                if final in ("rebase", "rebase_i"):
+                    do("switch")
+                do(final)
+                for _ in range(r.range(0, 3)):
+                    do(r.weighted(OPS))
+        except Stop:
+            pass
         out["trace"] = w.trace
         out["notes_checked"] = ck.n_checked
         return out
@@ -473,12 +550,12 @@ def fan_case(args):
             sim.git("rebase", "-i", "main", env_extra={"GIT_SEQUENCE_EDITOR": ed, "GIT_EDITOR": "true"})
             commits, want = [b, c_], {4, 5, 6, 7}
         elif op == "rebase_plain":
-            relayout(sim, lambda k: depth)
             sim.git("switch", "main")
             sim.write("m.txt", "m\nm2\n")
             sim.realgit("add", "-A")
-            sim.git("commit", "-q", "-m", "m2")
+            sim.git("commit", "-q", "-m", "m2")      # (git's own `notes add` re-lays the whole tree out: do it first)
             sim.git("switch", "feat")
+            relayout(sim, lambda k: depth)
             sim.git("rebase", "main")
             rc, out, _ = sim.realgit("rev-list", "--reverse", "main..HEAD")
             commits, want = out.split(), ai_lines
@@ -593,15 +670,17 @@ def remap_witness(base):
 
 
 def replay_witness(base):
-    """C05-K2 on the real binary: b.txt is created by the second feature commit only; upstream touches a.txt"""
+    """C05-K2 on the real binary: the second feature commit creates b.txt and appends to c.txt; upstream touches
+    a.txt; the note of the FIRST rebased commit is compared with that commit"""
     sim = Sim5(base, "k2")
     try:
-        sim.init({"a.txt": "a1\na2\n", "m.txt": "m\n"})
+        sim.init({"a.txt": "a1\na2\n", "c.txt": "c1\nc2\n", "m.txt": "m\n"})
         sim.git("switch", "-c", "feat")
         _ai(sim, "s1", "a.txt", "a1\na2\nAI1\n")
         sim.realgit("add", "-A")
         sim.git("commit", "-q", "-m", "f1")
         _ai(sim, "s1", "b.txt", "B1\nB2\n")
+        _ai(sim, "s1", "c.txt", "c1\nc2\nC3\nC4\n")
         sim.realgit("add", "-A")
         sim.git("commit", "-q", "-m", "f2")
         sim.git("switch", "main")
@@ -752,7 +831,7 @@ def gen_las(r, malformed=False):
         ln = r.weighted([(5, 0), (3, 1), (2, r.range(2, 6))])
         b = min(a + ln, 4294967295)
         if malformed and r.chance(1, 4):
-            a, b = r.pick([(b + 1, a), (0, b), (0, 0)])
+            a, b = r.pick([(min(b + 1, 4294967295), a), (0, b), (0, 0)])
         au = r.weighted([(5, authors[0]), (3, authors[1]), (3, authors[2]), (1, authors[3]), (1, authors[4])])
         las.append([a, b, C.cps(au)])
         if r.chance(1, 8):
@@ -1142,15 +1221,16 @@ def run(ctx):
                         model and not mism, "; ".join(mism[:3]) if mism else ("" if model else "model did not build")))
 
     # ---------------------------------------------------------------- (a) generated histories
-    n_h = 110 if quick else 2500
-    n_n = 40 if quick else 800
+    n_h = 300 if quick else 2500
+    n_n = 100 if quick else 800
     jobs = [(ctx.scratch, ctx.seed, i, {"max_ops": 10}) for i in range(n_h)] + \
            [(ctx.scratch, ctx.seed, i, {"max_ops": 9, "nasty": True}) for i in range(n_n)]
     fan_jobs = [(ctx.scratch, i, d, op) for i, (d, op) in enumerate(
         (d, op) for d in (0, 1, 2) for op in ("rebase_drop", "rebase_plain", "cherry_pick", "amend", "commit"))]
     res = C.parallel_map(scenario, jobs)
     ops_hist, kind_hist, known_hits = {}, {}, {}
-    steps = notes_checked = 0
+    steps = notes_checked = slow_steps = fast_steps = 0
+    shapes = {}
     samples = []
     for r_ in res:
         if "error" in r_:
@@ -1159,6 +1239,9 @@ def run(ctx):
         evaluations += 1
         steps += r_["steps"]
         notes_checked += r_["notes_checked"]
+        slow_steps += r_.get("slow_steps", 0)
+        fast_steps += r_.get("fast_steps", 0)
+        shapes[r_.get("shape")] = shapes.get(r_.get("shape"), 0) + 1
         for t in r_.get("trace", []):
             ops_hist[t[0]] = ops_hist.get(t[0], 0) + 1
         if r_["notes_checked"] > 1:
@@ -1177,7 +1260,8 @@ def run(ctx):
                                    {"kind": "history", "failure": f, "trace": r_.get("trace"), "files": r_.get("names"),
                                     "commands": r_.get("log")}))
     cov["history"] = {"scenarios": len(res), "steps": steps, "notes_checked": notes_checked, "ops": ops_hist,
-                      "failure_kinds": kind_hist, "known_class_hits": known_hits}
+                      "failure_kinds": kind_hist, "known_class_hits": known_hits, "shapes": shapes,
+                      "steps_with_content_replay": slow_steps, "steps_with_fast_path_remap": fast_steps}
 
     # ---------------------------------------------------------------- (b) fan-out matrix + natural large ref
     fres = C.parallel_map(fan_case, fan_jobs)
@@ -1237,7 +1321,7 @@ def run(ctx):
                     "without oracle), notes for the remap (valid pretty/compact, file names containing the field literal, "
                     "malformed); real repositories: trees of 1-6 keys at depth 0-3 (one third with depth >= 2, some objects "
                     "annotated twice) and 1-5 batch entries; histories: 4-10 ops over edit / commit / partial commit / amend / "
-                    "branch / switch / rebase / rebase -i / cherry-pick / reset / stash / pop / squash merge, stopped at the "
+                    "branch / switch / rebase / rebase -i / cherry-pick / reset / stash / pop / squash merge / CI squash rewrite, stopped at the "
                     "first failing step; a second stream with blanks, quotes, unicode, dashes and the delimiter-equal names. "
                     "Non-trivial = name longer than two bytes / accepted cat-file line / >= 2 intervals / note containing the "
                     "field literal / any tree case / history with >= 2 notes checked; distinct by input",
